@@ -610,6 +610,16 @@ func c09Metadata(c *Ctx) {
 		`<EntityDescriptor xmlns="urn:oasis:names:tc:SAML:2.0:metadata" validUntil="never"/>`,
 		`<EntityDescriptor xmlns="urn:oasis:names:tc:SAML:2.0:metadata" cacheDuration="PT"/>`,
 		`<EntitiesDescriptor xmlns="urn:oasis:names:tc:SAML:2.0:metadata"><EntityDescriptor entityID="a"/><EntityDescriptor entityID="b"><IDPSSODescriptor/></EntityDescriptor></EntitiesDescriptor>`}
+	// endpoint locations that url.Parse refuses or that carry odd schemes, on known and unknown bindings,
+	// in Location and ResponseLocation, for plain and indexed endpoints
+	for _, loc := range []string{"http://[::1", "http://host:port/x", "http://h/%zz", "%", ":", "http://a b/", "ht tp://x", "\x7f", "https://h:99999999/", "//h", "javascript:alert(1)", ""} {
+		for _, binding := range []string{saml.HTTPPostBinding, saml.HTTPRedirectBinding, saml.SOAPBinding, "urn:unknown:binding", ""} {
+			esc := strings.NewReplacer("&", "&amp;", "<", "&lt;", "\"", "&quot;", "\x7f", "&#x7f;").Replace(loc)
+			docs = append(docs,
+				`<EntityDescriptor xmlns="urn:oasis:names:tc:SAML:2.0:metadata" entityID="e"><IDPSSODescriptor protocolSupportEnumeration="urn:oasis:names:tc:SAML:2.0:protocol"><SingleSignOnService Binding="`+binding+`" Location="`+esc+`"/><SingleLogoutService Binding="`+binding+`" Location="https://ok.example/slo" ResponseLocation="`+esc+`"/></IDPSSODescriptor></EntityDescriptor>`,
+				`<EntityDescriptor xmlns="urn:oasis:names:tc:SAML:2.0:metadata" entityID="e"><SPSSODescriptor protocolSupportEnumeration="urn:oasis:names:tc:SAML:2.0:protocol"><AssertionConsumerService index="1" Binding="`+binding+`" Location="`+esc+`"/><AssertionConsumerService index="2" Binding="`+binding+`" Location="https://ok.example/acs" ResponseLocation="`+esc+`"/></SPSSODescriptor></EntityDescriptor>`)
+		}
+	}
 	// truncations and single-span deletions of the two generated documents
 	for _, base := range []string{string(md), string(idpMD)} {
 		for i := 0; i < 40; i++ {
